@@ -88,12 +88,17 @@ func (f *atomicFile) Commit() error {
 	if err := f.File.Close(); err != nil {
 		return err
 	}
-	// rename can't overwrite on windows
-	if err := os.Remove(f.name); err != nil && !os.IsNotExist(err) {
-		return err
-	}
 	if err := os.Rename(f.File.Name(), f.name); err != nil {
-		return err
+		if runtime.GOOS != "windows" {
+			return err
+		}
+		// rename can't overwrite on windows
+		if err := os.Remove(f.name); err != nil && !os.IsNotExist(err) {
+			return err
+		}
+		if err := os.Rename(f.File.Name(), f.name); err != nil {
+			return err
+		}
 	}
 	f.File = nil
 	runtime.SetFinalizer(f, nil)
